@@ -11,7 +11,7 @@ CUSTOM = ENUMS["BuiltinOperator"]["CUSTOM"]
 
 
 class Tensor:
-    __slots__ = ("idx", "name", "shape", "type", "dtype", "buffer", "data", "scale", "zp", "qdim", "raw")
+    __slots__ = ("idx", "name", "shape", "type", "dtype", "buffer", "data", "scale", "zp", "qdim", "raw", "is_variable")
 
     def elems(self):
         return int(np.prod(self.shape)) if len(self.shape) else 1
@@ -28,7 +28,7 @@ class Tensor:
 
 
 class Op:
-    __slots__ = ("idx", "code", "name", "custom", "version", "inputs", "outputs", "options", "custom_options", "raw")
+    __slots__ = ("idx", "code", "name", "custom", "version", "inputs", "outputs", "options", "custom_options", "raw", "intermediates")
 
 
 class Model:
@@ -55,6 +55,7 @@ def load(buf):
         T.type = TT_NAME.get(t.get("Type", 0), str(t.get("Type")))
         T.dtype = TT_NP.get(T.type, np.uint8)
         T.buffer = t.get("Buffer", 0)
+        T.is_variable = bool(t.get("IsVariable", False))
         if T.buffer >= len(buffers):
             raise fbs.ParseError(f"tensor {i} references buffer {T.buffer} of {len(buffers)}")
         d = buffers[T.buffer].get("Data") if T.buffer else None
@@ -84,6 +85,7 @@ def load(buf):
             if x >= len(m.tensors) or x < -1:
                 raise fbs.ParseError(f"operator {i} references tensor {x}")
         O.options = o.get("BuiltinOptions")
+        O.intermediates = [int(x) for x in (o["Intermediates"] if o.get("Intermediates") is not None else [])]
         co = o.get("CustomOptions")
         O.custom_options = bytes(co) if co is not None else None
         m.ops.append(O)
